@@ -140,6 +140,12 @@ Stats(B, reg, prefs, rk) ==
        lacks == UNION {{Lacks(reg[prefs[1][j]], ReqOf(B.reqs[n])) : j \in DOMAIN prefs[1]} : n \in single}
        outs == {IF Select(reg, prefs[1], ReqOf(B.reqs[n])) = NoEngine THEN "none" ELSE "engine" : n \in single}
                \cup {"pipe-" \o Pipe(reg, prefs[1], rk, Range(B.reqs[n].f), B.reqs[n].cks).k : n \in pipes}
+               \* pipelines of three and more stages (the kind reaching a stage is no longer what the
+               \* previous compiler makes of the REQUESTED kind): a whole pipeline is demanded / the
+               \* chain breaks at the third stage or later
+               \cup {LET w == Pipe(reg, prefs[1], rk, Range(B.reqs[n].f), B.reqs[n].cks)
+                     IN IF w.k = "none" /\ w.at >= 3 THEN "long-none-at-late-stage" ELSE "long-" \o w.k
+                     : n \in {p \in pipes : Len(B.reqs[p].cks) >= 3}}
    IN PrintT(<<"STATS", B.id, lacks, outs>>)
 
 Verdict ==
